@@ -60,6 +60,7 @@ struct ep_state {
   uint64_t n_global_stores, n_min_stores, n_entered_stores;
   uint64_t trimmed_for;  /* ghost: first element of the list the chain was last trimmed against (RemoveOutDatedLists) */
   uint64_t nodes_allocated, nodes_freed;
+  _Bool last_global_acq;     /* ghost: the worker's last read of the global epoch was an acquire operation */
   uint64_t new_node_upper;   /* ghost: range and successor of the list node allocated last */
   void *new_node_next;
 };
@@ -89,6 +90,7 @@ static inline uint64_t atomic_u64_load(atomic_u64 *a, int mo)
       a->v = g;
       EP.last_global_read = g;
       EP.have_global_read = 1;
+      EP.last_global_acq = VERIF_IS_ACQUIRE(mo);
     }
     return a->v;
   }
